@@ -142,6 +142,20 @@ Theorem caller_writes_address_only_the_callers_object : forall s i v k,
   writes (SliceSet s i v) = Some s /\ writes (GoMapSet s k v) = Some s /\ writes (GoMapDel s k) = Some s.
 Proof. intros. repeat split. Qed.
 
+(* round 3: the caller writes through an ELEMENT object of an array it was handed (SetValue on an association of
+   AsArray()'s result), or has a sorter instance sort its own Go array in place: only that array is addressed, so the
+   collection the array came from — and every other object — is unchanged by such a write (step_frame) *)
+Theorem element_writes_address_only_the_callers_array : forall s i v rk,
+  writes (AssocSet s i v) = Some s /\ writes (SortSlice s rk) = Some s.
+Proof. intros. split; reflexivity. Qed.
+
+Theorem element_write_leaves_the_collection_unchanged : forall zero p s i v p' r c,
+  step zero p (AssocSet s i v) = (p', r) -> c < length p -> c <> s -> nth c p' ODead = nth c p ODead.
+Proof.
+  intros zero p s i v p' r c H Hc Hn. destruct (step_frame _ _ _ _ _ H) as [_ F].
+  apply F; [exact Hc|]. cbn [writes]. congruence.
+Qed.
+
 (* ---------- the scenario of the property, for the constructor from a Go slice ---------- *)
 (* construct from the slice, then write the slice at any position: the collection still holds the old values;
    then mutate the collection: the slice holds what was written to it, nothing else *)
